@@ -235,6 +235,9 @@ impl DcpsDomainParticipant {
             return Err(DdsError::AlreadyDeleted);
         };
 
+        if publisher.enabled {
+            publisher.qos.check_immutability(&qos)?;
+        }
         publisher.qos = qos;
 
         // The publisher QoS (e.g. partition) is part of what its writers announce and match on
